@@ -36,8 +36,48 @@ def gen_run(index: int, vseed: int, pool: dict) -> dict:
     warm = rng.random() < 0.3
     threads: list[list] = [[] for _ in range(n)]
     targets: list[list] = [[] for _ in range(n)]
-    mode = "conflict" if rng.random() < 0.6 else "mixed"
-    if mode == "conflict":
+    r_mode = rng.random()
+    mode = "conflict" if r_mode < 0.55 else "shared" if r_mode < 0.7 else "mixed"
+    setup: list = []
+    if mode == "shared":
+        # objects created before the threads start and then used by several threads at once
+        vi = pool["valid_ibans"]
+        for _ in range(1 + rng.randrange(2)):
+            r = rng.randrange(5)
+            if r == 0 and pool["lookup_ibans"]:
+                setup.append(["iban", rng.choice(pool["lookup_ibans"]), {}])
+            elif r == 1:
+                key = rng.choice(sorted(pool["de_ibans"]))
+                rows = pool["de_ibans"][key] or [[vi["DE"][0], "x"]]
+                setup.append(["iban", rng.choice(rows)[0], {"allow_invalid": True}])
+            elif r == 2:
+                setup.append(["bic", rng.choice(pool["bics"]["registry"]), {}])
+            elif r == 3:
+                cc = rng.choice([c for c in pool["countries"] if pool["components"].get(c)])
+                setup.append(["bban", cc, rng.choice(pool["components"][cc])[3]])
+            else:
+                cc = rng.choice([c for c in pool["countries"] if vi[c]])
+                setup.append(["iban", rng.choice(vi[cc]), {}])
+        kinds = ["props", "props", "revalidate", "checksum_of", "bank_of", "cmp", "copy", "deepcopy", "pickle", "sorted"]
+        for t in range(n):
+            for _ in range(1 + rng.randrange(3)):
+                j = rng.randrange(len(setup))
+                k = rng.choice(kinds)
+                if setup[j][0] == "bic" and k in ("checksum_of", "bank_of"):
+                    k = "props"
+                if k == "revalidate":
+                    op = ["revalidate", {"ref": j}, bool(rng.randrange(2))]
+                elif k == "cmp":
+                    op = ["cmp", {"ref": j}, {"ref": rng.randrange(len(setup))}]
+                elif k == "sorted":
+                    op = ["sorted", [{"ref": rng.randrange(len(setup))} for _ in range(2)]]
+                else:
+                    op = [k, {"ref": j}]
+                threads[t].append(op), targets[t].append(f"obj:{j}")
+            if rng.random() < 0.3:
+                op, tg = gen.gen_op(rng, pool)
+                threads[t].append(op), targets[t].append(tg)
+    elif mode == "conflict":
         (a, ta), (b, tb) = gen.gen_conflict_pair(rng, pool)
         threads[0].append(a), targets[0].append(ta)
         threads[1].append(b), targets[1].append(tb)
@@ -75,7 +115,7 @@ def gen_run(index: int, vseed: int, pool: dict) -> dict:
         "run_seed": str(seed), "pythonhashseed": core.HASHSEED,
         "config": {"threads": n, "granularity": granularity, "policy": policy, "warm": warm,
                    "mode": mode},
-        "threads": threads, "targets": targets, "policy_seed": rng.getrandbits(48),
+        "threads": threads, "targets": targets, "policy_seed": rng.getrandbits(48), "setup": setup,
     }
 
 
@@ -234,13 +274,17 @@ def run_one(rec: dict, keep_events: bool = False) -> dict:
     outcomes: list[list] = [[] for _ in range(n)]
     for t in range(n):
         s.next_target[t] = targets[t][0] if targets[t] else None
+    objs: list = []
+    for op in rec.get("setup", ()):
+        _, obj = ops.execute(op, objs)  # main thread, before the simulated threads exist
+        objs.append(obj)
 
     def body(tid: int) -> None:
         my_ops, my_targets = threads[tid], targets[tid]
         for j, op in enumerate(my_ops):
             s.cur_target[tid] = my_targets[j]
             s.in_op[tid] = True
-            out, _ = ops.execute(op)
+            out, _ = ops.execute(op, objs)
             s.in_op[tid] = False
             s.next_target[tid] = my_targets[j + 1] if j + 1 < len(my_ops) else None
             outcomes[tid].append(out)
@@ -276,7 +320,7 @@ def judge(rec: dict, res: dict) -> dict | None:
                 "detail": f"threads {waiting} blocked forever at {res['deadlock']['site']}"}
     for t, my_ops in enumerate(rec["threads"]):
         for j, op in enumerate(my_ops):
-            want = runner.solo(op)["outcome"]
+            want = solo_outcome(rec, op)
             got = res["outcomes"][t][j] if j < len(res["outcomes"][t]) else ["missing"]
             if got != want:
                 return {"kind": "outcome-differs-from-solo", "thread": t, "op_index": j,
@@ -286,6 +330,14 @@ def judge(rec: dict, res: dict) -> dict | None:
                         "detail": f"thread {t} op {core.jdump(op)[:200]} alone -> "
                                   f"{core.jdump(want)[:200]} but concurrently -> {core.jdump(got)[:200]}"}
     return None
+
+
+def solo_outcome(rec: dict, op):
+    """Outcome of the call alone in a pristine process (with the setup objects it uses built first)."""
+    if rec.get("setup") and ops.refs_of(op):
+        hist = list(rec["setup"]) + [op]
+        return runner.solo_history(ops.closure_chain(hist, len(hist) - 1))["outcome"]
+    return runner.solo(op)["outcome"]
 
 
 def _family(target) -> str:
@@ -298,7 +350,7 @@ def est_steps(rec: dict) -> int:
     if rec["config"]["policy"][0] != "pct":
         return 0
     g = rec["config"]["granularity"]
-    return sum(runner.steps(op, g) for th in rec["threads"] for op in th)
+    return sum(300 if ops.refs_of(op) else runner.steps(op, g) for th in rec["threads"] for op in th)
 
 
 def execute_record(rec: dict, keep_events: bool = False):
